@@ -73,7 +73,8 @@ def normals_case(draw):
     if draw(st.integers(0, 7)) == 0:
         bulk = {"seed": draw(st.integers(0, 2**31 - 1)), "n": draw(st.integers(1, 500))}
     return {"mode": "normals", "normals": ns, "scale": scale, "bulk": bulk,
-            "order": draw(st.sampled_from(["zxz", "zzx"])), "as": draw(st.sampled_from(["array", "frame"]))}
+            "order": draw(st.sampled_from(["zxz", "zzx"])), "as": draw(st.sampled_from(["array", "frame"])),
+            "int_dtype": draw(st.integers(0, 5)) == 0}
 
 
 @st.composite
@@ -308,6 +309,17 @@ def run_angles(case, out):
     ok, pr2 = call(out, "visualize_rotations", lambda: geom.visualize_rotations(srot.from_matrix(M), plot_rotations=False, radius=2.5))
     if ok:
         out.check(bool(np.all(np.abs(np.asarray(pr2) - 2.5 * zax) < 1e-9)), "visualize_rotations:radius", "")
+    # no state may survive a call: the same questions again give the same answers
+    ok, pr3 = call(out, "visualize_rotations", lambda: geom.visualize_rotations(srot.from_matrix(M), plot_rotations=False))
+    if ok:
+        out.check(bool(np.all(np.abs(np.asarray(pr3) - zax) < 1e-9)), "visualize_rotations:result_depends_on_earlier_call", "")
+    ok, cd = call(out, "cone_distance", lambda: geom.cone_distance(srot.from_matrix(M), srot.from_matrix(M[::-1])))
+    if ok:
+        want = np.array([oracle.angle_between_deg(a_[:, 2], b_[:, 2]) for a_, b_ in zip(M, M[::-1])])
+        out.check(bool(np.all(np.abs(np.asarray(cd, float).reshape(-1) - want) <= TOL)), "cone:result_depends_on_earlier_call", "")
+    ok, nv2 = call(out, "euler_angles_to_normals", lambda: geom.euler_angles_to_normals(E.copy()))
+    if ok:
+        out.check(bool(np.all(np.abs(np.asarray(nv2, float) - zax) < 1e-9)), "normals:result_depends_on_earlier_call", "")
 
 
 def run_normals(case, out):
@@ -323,6 +335,11 @@ def run_normals(case, out):
         b = b[np.linalg.norm(b, axis=1) > 1e-3]
         ns += b.tolist()
     N = np.array(ns, float)
+    if case.get("int_dtype"):  # normals stored as integers (lattice directions): same property, other dtype
+        N = np.round(N / np.maximum(1e-9, np.abs(N).max(axis=1, keepdims=True)) * 3)
+        N = N[np.abs(N).sum(axis=1) > 0]
+        if len(N) == 0:
+            N = np.array([[1.0, 1.0, 0.0]])
     n = len(N)
     unit = N / np.linalg.norm(N, axis=1)[:, None]
     out.label("normals", f"order:{case['order']}", f"as:{case['as']}")
@@ -331,7 +348,11 @@ def run_normals(case, out):
     if np.any((N[:, 1] == 0) & (N[:, 0] == 0)):
         out.label("+-z")
     out.nontrivial = n >= 2
-    inp = N.copy() if case["as"] == "array" else pd.DataFrame(N.copy(), columns=["x", "y", "z"])
+    Nin = N.astype(np.int64) if case.get("int_dtype") else N.copy()
+    if case.get("int_dtype"):
+        out.label("integer_dtype_normals")
+    inp = Nin if case["as"] == "array" else pd.DataFrame(Nin, columns=["x", "y", "z"])
+    keep_in = inp.copy()
     ok, ang = call(out, "normals_to_euler_angles", lambda: geom.normals_to_euler_angles(inp, output_order=case["order"]))
     if not ok:
         return
@@ -342,6 +363,7 @@ def run_normals(case, out):
         e = np.column_stack((ang[:, 0], ang[:, 2], ang[:, 1]))  # (phi, psi, theta) -> (phi, theta, psi)
     else:
         e = ang
+    out.check(keep_in.equals(inp) if hasattr(inp, "equals") else np.array_equal(keep_in, inp), "n2e:input_modified", "")
     z = oracle.R_cc_batch(e)[:, :, 2]
     err = np.abs(z - unit).max(axis=1)
     bad = err > 1e-9
